@@ -92,7 +92,9 @@ TRANSLATORS.update({
     "C19": _T + "harness/py2v_registry.py + coq/lib/PyRegistry.v (the "
            "registration methods of Application -> gen/RegistryGen.v)",
 })
-TRANSLATORS["C03"] = TRANSLATORS["C01"]
+TRANSLATORS["C03"] = TRANSLATORS["C01"] + (
+    "; harness/py2v_slots.py + coq/lib/PySlots.v (write-once slots of "
+    "SimpleRequest and the census of their writers -> gen/SlotsGen.v)")
 TRANSLATORS["C04"] = TRANSLATORS["C01"] + (
     "; harness/py2v_abort.py + coq/lib/PyAbort.v (HTTPException, abort, "
     "redirect, RedirectResponse.__init__ -> gen/AbortGen.v)")
